@@ -58,8 +58,66 @@ func TestVerifC08(t *testing.T) {
 		r.Violation(sig+":"+strings.Join(fl, ","), what+": "+vmon.JoinLines(diff, 6), map[string]any{"conf": verifConfSummary(c), "diff": diff})
 	}
 
-	for i := 0; i < n; i++ {
-		c := verifGenConf(rng, base, accepted, i%4 == 3)
+	// directed cases first: every deprecated parameter alone (global, path defaults, one path), so that each of their
+	// conversions in Validate is exercised in every run
+	var directed []*Conf
+	for _, scope := range []string{"global", "pathDefaults", "path"} {
+		fields := verifPathFields
+		if scope == "global" {
+			fields = verifGlobalFields
+		}
+		for _, f := range fields {
+			if !f.Deprecated {
+				continue
+			}
+			for try := 0; try < 24; try++ {
+				val := verifGenJSON(rng, f.Type, f.GoName)
+				if ov, ok := map[string]string{"webrtcICEServers": `["stun:stun.l.google.com:19302","turn:u:p:h.example:3478"]`, "externalAuthenticationURL": `"http://127.0.0.1:9999/auth"`, "fallback": `"/otherpath"`}[f.JSON]; ok && try < 16 {
+					val = ov // generic strings are not ICE server URLs
+				}
+				if try < 16 && (val == "[]" || val == `""` || val == "null" || val == "{}") {
+					continue // prefer a value that makes the conversion do something
+				}
+				js := "{" + verifJSONString(f.JSON) + ":" + val + "}"
+				next := vmon.DeepCopy(base)
+				var err error
+				switch scope {
+				case "global":
+					var og OptionalGlobal
+					if err = jsonwrapper.Unmarshal([]byte(js), &og); err == nil {
+						next.PatchGlobal(&og)
+					}
+				case "pathDefaults":
+					var op OptionalPath
+					if err = jsonwrapper.Unmarshal([]byte(js), &op); err == nil {
+						next.PatchPathDefaults(&op)
+					}
+				default:
+					var op OptionalPath
+					if err = jsonwrapper.Unmarshal([]byte(js), &op); err == nil {
+						err = next.AddPath("cam1", &op)
+					}
+				}
+				if err != nil || next.Validate(nil) != nil || js == "{"+verifJSONString(f.JSON)+":null}" {
+					continue
+				}
+				directed = append(directed, next)
+				accepted[scope+"."+f.JSON]++
+				r.SetAdd("deprecated_parameters_exercised_alone", scope+"."+f.JSON)
+				break
+			}
+			if accepted[scope+"."+f.JSON] == 0 {
+				r.SetAdd("deprecated_parameters_never_accepted_alone", scope+"."+f.JSON)
+			}
+		}
+	}
+	for i := 0; i < n+len(directed); i++ {
+		var c *Conf
+		if i < len(directed) {
+			c = directed[i]
+		} else {
+			c = verifGenConf(rng, base, accepted, i%4 == 3)
+		}
 		before := vmon.Dump(c)
 		// configurations using the deprecated per-path credentials are a class of their own:
 		// Validate rewrites authInternalUsers for them
